@@ -3,6 +3,7 @@
    leaf_row, ctor_row, type_of) is REGENERATED from zlink-core/src/introspect/type/ on every run;
    spec_type is the property's own mapping stated over Rust type names (Codegen/Derive.v). *)
 From ZV Require Import Codegen.IdlTy gen.TypeTable Codegen.Derive Codegen.DeriveProofs Codegen.DeriveIdl.
+From ZV Require Import gen.FieldStatics Codegen.DeriveStatics.
 Open Scope string_scope.
 
 (* Every Rust type built from the `impl Type` rows (leaves, Option/Vec/sets/maps/wrappers in any
@@ -186,3 +187,32 @@ Example C16_error_nonvacuous :
          {| e_name := "Invalid"; e_fields := [("field", TString, [])]; e_comments := [] |};
          {| e_name := "Failed"; e_fields := [("code", TInt, [])]; e_comments := [] |} ].
 Proof. cbv zeta. split; [repeat constructor|reflexivity]. Qed.
+
+(* The derive can describe EVERY struct and every error variant with named fields: the items it emits
+   into one block — the slice of field references (its name translated from custom_type.rs, type.rs,
+   reply_error.rs) and one static per field (name format translated from shared.rs) — have pairwise
+   distinct names whatever the fields and the variant are called and however many fields there are, so
+   the block is never rejected for a name defined twice (E0428).  `ups` are the field names in upper
+   case, which the names no longer depend on.  gen/FieldStatics.v is regenerated on every run; naming
+   the statics after the fields again makes `plain_by_position` false and this proof fail. *)
+Theorem C16_field_statics_distinct :
+  forall slice, List.In slice slice_names ->
+  forall ups, List.NoDup (plain_block slice ups) /\
+              forall variant_up, List.NoDup (variant_block slice variant_up ups).
+Proof. exact field_statics_distinct. Qed.
+Print Assumptions C16_field_statics_distinct.
+
+(* Before /repo 77f15db (finding C16.field_static_name_collision) the statics were named after the
+   field in upper case: a field called `refs` met the slice FIELD_REFS, fields `id` and `ID` each other. *)
+Theorem C16_field_statics_refuted_before_77f15db :
+  ~ List.NoDup (block_names false FIELD_ FIELD_REFS [[82; 69; 70; 83]%N]) /\
+  ~ List.NoDup (block_names false FIELD_ FIELD_REFS [[73; 68]%N; [73; 68]%N]).
+Proof. split; [exact by_name_refuted_refs | exact by_name_refuted_case]. Qed.
+Print Assumptions C16_field_statics_refuted_before_77f15db.
+
+(* the translated slice is the one of the witness, and the same fields are fine by position *)
+Example C16_field_statics_nonvacuous :
+  List.In FIELD_REFS slice_names /\
+  plain_block FIELD_REFS [[82; 69; 70; 83]%N; [73; 68]%N; [73; 68]%N] =
+    [FIELD_REFS; (FIELD_ ++ [48])%N%list; (FIELD_ ++ [49])%N%list; (FIELD_ ++ [50])%N%list].
+Proof. split; [left; reflexivity | reflexivity]. Qed.
